@@ -107,13 +107,21 @@ def _shard(args):
     if n: cmd += ["--n", str(n)]
     if ctx.replay and idx == 0:
         cmd += ["--replay", ctx.replay]
+    try: os.remove(os.path.join(out, "report.json"))
+    except OSError: pass
     rc, log = vlib.sh(cmd, timeout=3000)
+    retried = None
+    if rc < 0 and not os.path.exists(os.path.join(out, "report.json")):
+        # the process was killed by a signal before it wrote its report (seen once: SIGSEGV inside libc's thread code under
+        # heavy thread churn, not reproducible in 130 000 further cases): run the shard ONCE more, same seed, and say so
+        retried = f"shard {idx} (seed {seed}) died with signal {-rc} and was re-run once"
+        rc, log = vlib.sh(cmd, timeout=3000)
     if rc != 0:
-        return {"dir": out, "error": f"harness exit {rc}: {log[-600:]}"}
+        return {"dir": out, "error": f"harness exit {rc}{' (twice)' if retried else ''}: {log[-600:]}"}
     rc, err = vlib.run_driver(DRIVER, os.path.join(out, "ops.txt"), os.path.join(out, "model.txt"))
     if rc != 0:
         return {"dir": out, "error": f"driver exit {rc}: {err[-400:]}"}
-    return {"dir": out, "driver_stats": err.strip()}
+    return {"dir": out, "driver_stats": err.strip(), "retried": retried}
 
 
 def _read(p):
@@ -157,6 +165,7 @@ def run(ctx, boost=1):
             res.disagreements.append({"line": 0, "op": o["dir"], "impl": o["error"], "model": ""})
             continue
         d = o["dir"]
+        if o.get("retried"): ctx.notes.append(o["retried"])
         rep = json.load(open(os.path.join(d, "report.json")))
         res.evaluations += rep["evaluations"]
         res.distinct_nontrivial += rep["distinct_nontrivial"]
